@@ -37,7 +37,15 @@ def make_class(attrs, name='Thing', value_equality=False):
     # a class whose instances compare (and hash) equal by value: they are still distinct objects
     ns['__eq__'] = lambda self, other: type(other) is type(self)
     ns['__hash__'] = lambda self: 12345
-  return tsa.MetaThreadSafeAttributes(name, (object,), ns)
+  cls = tsa.MetaThreadSafeAttributes(name, (object,), ns)
+  # the metaclass creates the descriptors in set order (PYTHONHASHSEED dependent): name the
+  # simulated locks after their attribute so that event logs do not depend on that order
+  for a in attrs:
+    d = cls.__dict__.get(a)
+    for v in (vars(d).values() if d is not None and hasattr(d, '__dict__') else []):
+      if isinstance(v, prims.SimRLock):
+        v._label = 'rlock:%s.%s' % (name, a)
+  return cls
 
 
 def descriptor(cls, attr):
